@@ -42,3 +42,271 @@ pub fn now_ns() -> u64 {
 pub fn system_time_micros() -> u64 {
     EPOCH_OFFSET_US + CLOCK_NS.load(Ordering::SeqCst) / 1000
 }
+
+// ---------------------------------------------------------------- in-memory UDP (H2)
+
+use std::collections::{HashMap, VecDeque};
+use std::io;
+use std::net::{Ipv4Addr, SocketAddr, SocketAddrV4};
+use std::sync::{Arc, Condvar, Mutex, OnceLock};
+
+#[derive(Default)]
+struct SlotState {
+    /// `true`: `recv_from` never blocks (the harness calls `Actor::tick` itself).
+    /// `false`: `recv_from` parks the calling (actor) thread until the harness grants a step.
+    direct: bool,
+    permits: u32,
+    parked: bool,
+    dead: bool,
+    panicked: bool,
+    inbox: VecDeque<(Vec<u8>, SocketAddrV4)>,
+    steps: u64,
+}
+struct Slot {
+    st: Mutex<SlotState>,
+    cv: Condvar,
+}
+#[derive(Default)]
+struct Net {
+    nodes: HashMap<SocketAddrV4, Arc<Slot>>,
+    outbox: VecDeque<(SocketAddrV4, SocketAddrV4, Vec<u8>)>,
+    next_ip: Option<Ipv4Addr>,
+    next_seed: u64,
+    next_direct: bool,
+    ephemeral: u16,
+}
+fn net() -> &'static Mutex<Net> {
+    static NET: OnceLock<Mutex<Net>> = OnceLock::new();
+    NET.get_or_init(|| {
+        Mutex::new(Net {
+            ephemeral: 40000,
+            ..Default::default()
+        })
+    })
+}
+
+/// Harness: the next `bind` gets this virtual IP and rng seed.
+/// `direct = true` makes `recv_from` non-blocking (single-threaded driving of `Actor::tick`).
+pub fn prepare_bind(ip: Ipv4Addr, seed: u64, direct: bool) {
+    let mut n = net().lock().unwrap();
+    n.next_ip = Some(ip);
+    n.next_seed = seed;
+    n.next_direct = direct;
+}
+
+/// Harness: forget all simulated sockets and queued datagrams (between cases).
+pub fn reset_net() {
+    let mut n = net().lock().unwrap();
+    n.nodes.clear();
+    n.outbox.clear();
+    n.next_ip = None;
+    n.ephemeral = 40000;
+}
+
+/// Stand-in for `std::net::UdpSocket` (the five methods `KrpcSocket` uses).
+pub struct UdpSocket {
+    addr: SocketAddrV4,
+    slot: Arc<Slot>,
+}
+
+impl std::fmt::Debug for UdpSocket {
+    fn fmt(&self, f: &mut std::fmt::Formatter<'_>) -> std::fmt::Result {
+        write!(f, "SimUdpSocket({})", self.addr)
+    }
+}
+
+impl UdpSocket {
+    pub fn bind(addr: SocketAddr) -> io::Result<Self> {
+        let mut n = net().lock().unwrap();
+        let ip = n.next_ip.unwrap_or(Ipv4Addr::new(127, 0, 0, 1));
+        let port = if addr.port() == 0 {
+            n.ephemeral += 1;
+            n.ephemeral
+        } else {
+            addr.port()
+        };
+        let addr = SocketAddrV4::new(ip, port);
+        if n.nodes.contains_key(&addr) {
+            return Err(io::Error::new(io::ErrorKind::AddrInUse, "sim addr in use"));
+        }
+        n.next_ip = None;
+        let slot = Arc::new(Slot {
+            st: Mutex::new(SlotState {
+                direct: n.next_direct,
+                ..Default::default()
+            }),
+            cv: Condvar::new(),
+        });
+        n.nodes.insert(addr, slot.clone());
+        if !n.next_direct {
+            seed_thread(n.next_seed);
+        }
+        Ok(UdpSocket { addr, slot })
+    }
+    pub fn local_addr(&self) -> io::Result<SocketAddr> {
+        Ok(SocketAddr::V4(SocketAddrV4::new(
+            Ipv4Addr::UNSPECIFIED,
+            self.addr.port(),
+        )))
+    }
+    /// The virtual address this socket is reachable at.
+    pub fn sim_addr(&self) -> SocketAddrV4 {
+        self.addr
+    }
+    pub fn set_read_timeout(&self, _d: Option<Duration>) -> io::Result<()> {
+        Ok(())
+    }
+    pub fn send_to(&self, bytes: &[u8], to: SocketAddrV4) -> io::Result<usize> {
+        net()
+            .lock()
+            .unwrap()
+            .outbox
+            .push_back((self.addr, to, bytes.to_vec()));
+        Ok(bytes.len())
+    }
+    /// In lockstep mode this is the scheduling rendezvous: park until the harness grants a step.
+    pub fn recv_from(&self, buf: &mut [u8]) -> io::Result<(usize, SocketAddr)> {
+        let mut st = self.slot.st.lock().unwrap();
+        if !st.direct {
+            st.parked = true;
+            st.steps += 1;
+            self.slot.cv.notify_all();
+            while st.permits == 0 {
+                st = self.slot.cv.wait(st).unwrap();
+            }
+            st.permits -= 1;
+            st.parked = false;
+        }
+        match st.inbox.pop_front() {
+            Some((bytes, from)) => {
+                let n = bytes.len().min(buf.len());
+                buf[..n].copy_from_slice(&bytes[..n]);
+                Ok((n, SocketAddr::V4(from)))
+            }
+            None => Err(io::Error::new(io::ErrorKind::WouldBlock, "sim")),
+        }
+    }
+}
+
+impl Drop for UdpSocket {
+    fn drop(&mut self) {
+        let mut st = self.slot.st.lock().unwrap();
+        st.dead = true;
+        st.panicked = std::thread::panicking();
+        self.slot.cv.notify_all();
+    }
+}
+
+#[derive(Debug, PartialEq, Eq, Clone, Copy)]
+pub enum StepOutcome {
+    Parked,
+    Dead,
+    Panicked,
+}
+
+fn slot_of(addr: SocketAddrV4) -> Option<Arc<Slot>> {
+    net().lock().unwrap().nodes.get(&addr).cloned()
+}
+
+/// Harness: queue a datagram for the node's next `recv_from` (direct mode).
+pub fn deliver(addr: SocketAddrV4, bytes: Vec<u8>, from: SocketAddrV4) {
+    let slot = slot_of(addr).expect("unknown sim node");
+    slot.st.lock().unwrap().inbox.push_back((bytes, from));
+}
+
+/// Harness: wait until the node's actor thread is parked in recv_from (or dead).
+pub fn wait_parked(addr: SocketAddrV4) -> StepOutcome {
+    let slot = slot_of(addr).expect("unknown sim node");
+    let mut st = slot.st.lock().unwrap();
+    loop {
+        if st.dead {
+            return if st.panicked {
+                StepOutcome::Panicked
+            } else {
+                StepOutcome::Dead
+            };
+        }
+        if st.parked && st.permits == 0 {
+            return StepOutcome::Parked;
+        }
+        st = slot.cv.wait(st).unwrap();
+    }
+}
+
+/// Harness: let the node's actor thread run exactly one loop iteration (lockstep mode),
+/// optionally delivering a datagram to it.
+pub fn step(addr: SocketAddrV4, datagram: Option<(Vec<u8>, SocketAddrV4)>) -> StepOutcome {
+    let slot = slot_of(addr).expect("unknown sim node");
+    let mut st = slot.st.lock().unwrap();
+    if st.dead {
+        return if st.panicked {
+            StepOutcome::Panicked
+        } else {
+            StepOutcome::Dead
+        };
+    }
+    let before = st.steps;
+    if let Some(d) = datagram {
+        st.inbox.push_back(d);
+    }
+    st.permits += 1;
+    slot.cv.notify_all();
+    // wait for the *next* rendezvous
+    loop {
+        if st.dead {
+            return if st.panicked {
+                StepOutcome::Panicked
+            } else {
+                StepOutcome::Dead
+            };
+        }
+        if st.parked && st.permits == 0 && st.steps > before {
+            return StepOutcome::Parked;
+        }
+        st = slot.cv.wait(st).unwrap();
+    }
+}
+
+/// Harness: drain datagrams sent since the last call: (from, to, bytes).
+pub fn drain_outbox() -> Vec<(SocketAddrV4, SocketAddrV4, Vec<u8>)> {
+    net().lock().unwrap().outbox.drain(..).collect()
+}
+
+/// Harness: addresses of all simulated sockets.
+pub fn registered() -> Vec<SocketAddrV4> {
+    let mut v: Vec<_> = net().lock().unwrap().nodes.keys().cloned().collect();
+    v.sort();
+    v
+}
+
+// ---------------------------------------------------------------- deterministic randomness (H3)
+
+use std::cell::Cell;
+
+thread_local! { static RNG: Cell<u64> = const { Cell::new(0) }; }
+
+/// Harness: seed the calling thread's random stream (0 = use the OS source).
+pub fn seed_thread(seed: u64) {
+    RNG.with(|r| r.set(seed));
+}
+/// Harness: current state of the calling thread's random stream.
+pub fn rng_state() -> u64 {
+    RNG.with(|r| r.get())
+}
+/// Returns true if it filled the buffer deterministically (xorshift64, one step per byte).
+pub fn fill(buf: &mut [u8]) -> bool {
+    RNG.with(|r| {
+        let mut s = r.get();
+        if s == 0 {
+            return false;
+        }
+        for b in buf.iter_mut() {
+            s ^= s << 13;
+            s ^= s >> 7;
+            s ^= s << 17;
+            *b = (s >> 24) as u8;
+        }
+        r.set(s);
+        true
+    })
+}
